@@ -231,6 +231,6 @@ def StructTag(
                 else:
                     value[offset] &= ~(1 << bit)
 
-            return value
+            return bytes(value)
 
     return StructTag
